@@ -41,13 +41,18 @@ def hashy_program(r):
     L.append('class Big(def ba: Int, def bb: Str)')
     L += members
     L.append('')
-    L.append('class P1\n    def p1f: Int := 1\n    def p1m(self) -> Int => 1')
-    L.append('class P2\n    def p2f: Str := "p"\n    def p2m(self) -> Str => "2"')
-    L.append('class P3\n    def p3f: Bool := True')
+    # half of the programs: the parents define the SAME member names with different signatures / types, and a use that fits only one of them
+    conflict = r.random() < 0.3
+    L.append('class P1\n    def p1f: Int := 1\n    def p1m(self) -> Int => 1' + ('\n    def same(self, x: Int) -> Int => x\n    def shared: Int := 1' if conflict else ''))
+    L.append('class P2\n    def p2f: Str := "p"\n    def p2m(self) -> Str => "2"' + ('\n    def same(self, x: Str, y: Int) -> Str => x\n    def shared: Str := "s"' if conflict else ''))
+    L.append('class P3\n    def p3f: Bool := True' + ('\n    def same(self) -> Bool => True\n    def shared: Bool := True' if conflict else ''))
     parents = r.sample(['P1', 'P2', 'P3'], r.randrange(2, 4))
     L.append(f"class Multi(def mm: Int): {', '.join(parents)}")
     L.append('    def own(self) -> Int => self.mm')
     L.append('')
+    if conflict:
+        L.append(r.choice(['def cu := Multi(1).same(1)', 'def cu := Multi(1).same("s", 2)', 'def cu := Multi(1).same()', 'def cf: Int := Multi(1).shared', 'def cf: Str := Multi(1).shared']))
+        L.append('')
     raises = ', '.join(f'Ex{i}' for i in r.sample(range(nexc), r.randrange(2, nexc + 1)))
     L.append(f'def risky(k: Int) -> Int raise [{raises}] =>')
     L.append('    if k > 100 then')
@@ -70,6 +75,12 @@ def hashy_program(r):
             L.append(f'def u{j} := [{a}, {b}, {c}]')
     L.append('def big := Big(1, "x")')
     L.append('print(big.ba)')
+    # generator-made helper names: `e ? d` with a left operand that is not an identifier gets a helper lambda per use
+    L.append('class NBox(def nv: Int?, def ns: Str?)')
+    L.append('def nbox := NBox(None, "s")')
+    for j in range(r.randrange(2, 6)):
+        L.append(r.choice([f'def h{j}: Int := nbox.nv ? {j}', f'def h{j}: Str := nbox.ns ? "d{j}"', f'def h{j}: Int := NBox({j}, None).nv ? (nbox.nv ? {j})',
+                           f'def h{j}: Str := NBox(None, "t{j}").ns ? "e{j}"']))
     return '\n'.join(L) + '\n'
 
 
